@@ -153,5 +153,10 @@ pub fn random_condition(engine: &mut Engine, rng: &mut Rng, wild: bool) -> Value
 }
 
 pub fn load_bundled() -> Engine {
+    // JBV_VOICE: a recorder can be pointed at another voice of the same layout (a PDF-perturbed copy of the bundled one,
+    // whose low-pass and spectral parameters differ from state to state)
+    if let Ok(v) = std::env::var("JBV_VOICE") {
+        return Engine::load(&[v.as_str()]).unwrap_or_else(|e| die(&format!("{} does not load: {}", v, e)));
+    }
     Engine::load(&[BUNDLED_VOICE]).unwrap_or_else(|e| die(&format!("bundled voice does not load: {}", e)))
 }
